@@ -317,4 +317,19 @@ pub fn run(sink: &mut Sink, thorough: bool, seed: u64) {
         };
         emit(sink, &lit, "bigexp");
     }
+
+    // ---- the interval (2^-1076, 2^-1075): values that round to zero but are above the quarter-subnormal bound of the relative
+    //      error analysis (c08_underflow_zero_sharp). For exponent -(324+i) the largest u64 significand below 2^-1075 is TINY[i].
+    const TINY: [u64; 20] = [2, 24, 247, 2470, 24703, 247032, 2470328, 24703282, 247032822, 2470328229, 24703282292, 247032822920, 2470328229206,
+        24703282292062, 247032822920623, 2470328229206232, 24703282292062327, 247032822920623272, 2470328229206232720, 18446744073709551615];
+    for (i, &b) in TINY.iter().enumerate() {
+        let e = -(324 + i as i64);
+        emit_spellings(sink, &mut r, &b.to_string(), e, "tiny-band", true);
+        for d in 1..=(3 * scale as u64) {
+            if b > d { emit_spellings(sink, &mut r, &(b - d).to_string(), e, "tiny-band", false); }
+            if let Some(v) = b.checked_add(d) { emit_spellings(sink, &mut r, &v.to_string(), e, "tiny-band", false); }
+        }
+        // the upper half of the interval, at random
+        for _ in 0..(4 * scale) { let v = b / 2 + r.next() % (b / 2 + 1); if v > 0 { emit_spellings(sink, &mut r, &v.to_string(), e, "tiny-band", false); } }
+    }
 }
